@@ -1486,4 +1486,760 @@ theorem getOperation_agree (D : Document) (opName : String) :
         | cons b l' => exact ⟨_, rfl, rfl⟩
 
 
+/-! ### the memo: selection nodes of one document, positions, cache invariant -/
+
+/-- `P` holds of the selection nodes of document `D`: closed under sub-selections, contains the
+    selections of every fragment definition, and distinct nodes have distinct positions (a fact
+    about the parser: C06). -/
+structure NodeSet (D : Document) (P : Selection → Prop) : Prop where
+  field_sub : ∀ pos alias name wkey ae dirs sub, P (.field pos alias name wkey ae dirs sub) → ∀ s ∈ sub, P s
+  inline_sub : ∀ pos tc dirs sub, P (.inline pos tc dirs sub) → ∀ s ∈ sub, P s
+  frags : ∀ fr ∈ D.frags, ∀ s ∈ fr.sels, P s
+  pos_inj : ∀ s1 s2, P s1 → P s2 → s1.pos = s2.pos → s1 = s2
+
+/-- the sub-selections of these field nodes are nodes of the document -/
+def FieldsIn (P : Selection → Prop) (fields : List FieldNode) : Prop := ∀ f ∈ fields, ∀ s ∈ f.sels, P s
+
+theorem frag?_mem (D : Document) (name : String) (fr : Frag) (h : D.frag? name = some fr) : fr ∈ D.frags := by
+  unfold Document.frag? at h
+  have := List.mem_of_find?_eq_some h
+  simpa using this
+
+theorem expandStep_fieldsIn (S : Schema) (D : Document) (o : ObjT) (P : Selection → Prop) (hP : NodeSet D P)
+    (recur : List Selection → List String → Except Stuck Expanded)
+    (hrec : ∀ sels vis r, (∀ s ∈ sels, P s) → recur sels vis = .ok r → FieldsIn P r.1)
+    (acc : Expanded) (sel : Selection) (r : Expanded) (hacc : FieldsIn P acc.1) (hsel : P sel)
+    (h : expandStep S D o recur acc sel = .ok r) : FieldsIn P r.1 := by
+  unfold expandStep at h
+  by_cases hs : skipped sel.dirs
+  · simp only [hs, if_true, Except.ok.injEq] at h; subst h; exact hacc
+  · simp only [hs, Bool.false_eq_true, if_false] at h
+    have happ : ∀ (fs : List FieldNode), FieldsIn P fs → FieldsIn P (acc.1 ++ fs) := by
+      intro fs hfs f hf
+      rcases List.mem_append.mp hf with h1 | h1
+      · exact hacc f h1
+      · exact hfs f h1
+    cases sel with
+    | field pos alias name wkey argErr dirs sub =>
+      simp only [Except.ok.injEq] at h
+      subst h
+      apply happ
+      intro f hf
+      simp only [List.mem_singleton] at hf
+      subst hf
+      exact hP.field_sub _ _ _ _ _ _ _ hsel
+    | spread pos name dirs =>
+      by_cases hv : acc.2.contains name = true
+      · simp only [hv, if_true, Except.ok.injEq] at h; subst h; exact hacc
+      · simp only [hv, Bool.false_eq_true, if_false] at h
+        cases hf : D.frag? name with
+        | none => simp only [hf, Except.ok.injEq] at h; subst h; exact hacc
+        | some fr =>
+          simp only [hf] at h
+          cases ha : fragmentApplies S o fr.tc with
+          | no => simp only [ha, Except.ok.injEq] at h; subst h; exact hacc
+          | panic => simp [ha] at h
+          | yes =>
+            simp only [ha] at h
+            cases hr : recur fr.sels (name :: acc.2) with
+            | error e => simp [hr] at h
+            | ok r' =>
+              simp only [hr, Except.ok.injEq] at h
+              subst h
+              exact happ _ (hrec _ _ _ (hP.frags fr (frag?_mem D name fr hf)) hr)
+    | inline pos tc dirs sub =>
+      have hsub := hP.inline_sub _ _ _ _ hsel
+      have key : ∀ (h' : (match recur sub acc.2 with
+                          | .ok r => Except.ok (acc.1 ++ r.1, r.2)
+                          | .error e => Except.error e) = Except.ok r), FieldsIn P r.1 := by
+        intro h'
+        cases hr : recur sub acc.2 with
+        | error e => simp [hr] at h'
+        | ok r' =>
+          simp only [hr, Except.ok.injEq] at h'
+          subst h'
+          exact happ _ (hrec _ _ _ hsub hr)
+      cases tc with
+      | none => exact key h
+      | some tc =>
+        simp only at h
+        cases ha : fragmentApplies S o tc with
+        | no => simp only [ha, Except.ok.injEq] at h; subst h; exact hacc
+        | panic => simp [ha] at h
+        | yes => simp only [ha] at h; exact key h
+
+theorem expand_fieldsIn (S : Schema) (D : Document) (o : ObjT) (P : Selection → Prop) (hP : NodeSet D P)
+    (fuel : Nat) (sels : List Selection) (vis : List String) (r : Expanded)
+    (hsels : ∀ s ∈ sels, P s) (h : expand S D o fuel sels vis = .ok r) : FieldsIn P r.1 := by
+  induction fuel generalizing sels vis r with
+  | zero => simp [expand] at h
+  | succ fuel ih =>
+    simp only [expand] at h
+    have fold : ∀ (sels : List Selection) (acc r : Expanded), (∀ s ∈ sels, P s) → FieldsIn P acc.1 →
+        sels.foldlM (expandStep S D o (expand S D o fuel)) acc = .ok r → FieldsIn P r.1 := by
+      intro sels
+      induction sels with
+      | nil =>
+        intro acc r _ hacc h
+        simp only [List.foldlM_nil, pure, Except.pure, Except.ok.injEq] at h
+        subst h; exact hacc
+      | cons sel rest ihl =>
+        intro acc r hs hacc h
+        simp only [List.foldlM_cons] at h
+        cases h1 : expandStep S D o (expand S D o fuel) acc sel with
+        | error e => simp [h1, bind, Except.bind] at h
+        | ok acc' =>
+          simp only [h1, bind, Except.bind] at h
+          have hacc' := expandStep_fieldsIn S D o P hP _ (fun sels vis r hs hr => ih sels vis r hs hr) acc sel acc' hacc
+            (hs sel (List.mem_cons_self ..)) h1
+          exact ihl acc' r (fun s hs' => hs s (List.mem_cons_of_mem _ hs')) hacc' h
+    exact fold sels ([], vis) r hsels (by intro f hf; simp at hf) h
+
+theorem foldl_appendNode_mem (fs : List FieldNode) (g : Grouped) (k : String) (fields : List FieldNode)
+    (h : (k, fields) ∈ fs.foldl appendNode g) (f : FieldNode) (hf : f ∈ fields) :
+    f ∈ fs ∨ ∃ k' fields', (k', fields') ∈ g ∧ f ∈ fields' := by
+  induction fs generalizing g with
+  | nil => exact Or.inr ⟨k, fields, h, hf⟩
+  | cons a rest ih =>
+    simp only [List.foldl_cons] at h
+    rcases ih _ h with h1 | ⟨k', fields', hm, hf'⟩
+    · exact Or.inl (List.mem_cons_of_mem _ h1)
+    · -- a member of a group of `g.append _ a`
+      have : f = a ∨ ∃ k'' fields'', (k'', fields'') ∈ g ∧ f ∈ fields'' := by
+        clear ih h
+        simp only [appendNode] at hm
+        induction g with
+        | nil =>
+          simp only [Grouped.append, List.mem_singleton, Prod.mk.injEq] at hm
+          obtain ⟨_, rfl⟩ := hm
+          simp only [List.mem_singleton] at hf'
+          exact Or.inl hf'
+        | cons p g' ihg =>
+          obtain ⟨k1, fs1⟩ := p
+          by_cases hk : k1 = a.responseKey
+          · rw [append_cons_eq _ _ _ _ _ hk] at hm
+            rcases List.mem_cons.mp hm with hm | hm
+            · simp only [Prod.mk.injEq] at hm
+              obtain ⟨_, rfl⟩ := hm
+              rcases List.mem_append.mp hf' with h2 | h2
+              · exact Or.inr ⟨k1, fs1, List.mem_cons_self .., h2⟩
+              · simp only [List.mem_singleton] at h2; exact Or.inl h2
+            · exact Or.inr ⟨k', fields', List.mem_cons_of_mem _ hm, hf'⟩
+          · rw [append_cons_ne _ _ _ _ _ hk] at hm
+            rcases List.mem_cons.mp hm with hm | hm
+            · simp only [Prod.mk.injEq] at hm
+              obtain ⟨rfl, rfl⟩ := hm
+              exact Or.inr ⟨k', fields', List.mem_cons_self .., hf'⟩
+            · rcases ihg hm with h3 | ⟨k'', fields'', h3, h4⟩
+              · exact Or.inl h3
+              · exact Or.inr ⟨k'', fields'', List.mem_cons_of_mem _ h3, h4⟩
+      rcases this with rfl | h2
+      · exact Or.inl (List.mem_cons_self ..)
+      · exact Or.inr h2
+
+theorem groupInOrder_fieldsIn (P : Selection → Prop) (fs : List FieldNode) (h : FieldsIn P fs)
+    (p : String × List FieldNode) (hp : p ∈ groupInOrder fs) : FieldsIn P p.2 := by
+  intro f hf
+  rcases foldl_appendNode_mem fs [] p.1 p.2 hp f hf with h1 | ⟨_, _, h2, _⟩
+  · exact h f h1
+  · simp at h2
+
+theorem mergeSelectionSets_in (P : Selection → Prop) (fields : List FieldNode) (h : FieldsIn P fields) :
+    ∀ s ∈ mergeSelectionSets fields, P s := by
+  intro s hs
+  simp only [mergeSelectionSets, List.mem_flatMap] at hs
+  obtain ⟨f, hf, hs⟩ := hs
+  exact h f hf s hs
+
+
+theorem sels_eq_of_pos (P : Selection → Prop) (hinj : ∀ s1 s2, P s1 → P s2 → s1.pos = s2.pos → s1 = s2)
+    (a b : List Selection) (ha : ∀ s ∈ a, P s) (hb : ∀ s ∈ b, P s) (h : a.map Selection.pos = b.map Selection.pos) : a = b := by
+  induction a generalizing b with
+  | nil => cases b with
+    | nil => rfl
+    | cons y ys => simp at h
+  | cons x xs ih =>
+    cases b with
+    | nil => simp at h
+    | cons y ys =>
+      simp only [List.map_cons, List.cons.injEq] at h
+      have hxy := hinj x y (ha x (List.mem_cons_self ..)) (hb y (List.mem_cons_self ..)) h.1
+      have := ih ys (fun s hs => ha s (List.mem_cons_of_mem _ hs)) (fun s hs => hb s (List.mem_cons_of_mem _ hs)) h.2
+      rw [hxy, this]
+
+/-- Every memo entry is what `collectFields` computes for the (object type, selection list) its key
+    stands for. -/
+def CacheOK (S : Schema) (D : Document) (P : Selection → Prop) (c : Cache) : Prop :=
+  ∀ k g, (k, g) ∈ c → ∃ o sels fuel0 fs v, S.object? o.name = some o ∧ (∀ s ∈ sels, P s) ∧ k = cacheKey o sels ∧
+    expand S D o fuel0 sels [] = .ok (fs, v) ∧ g = groupInOrder fs
+
+theorem cacheOK_nil (S : Schema) (D : Document) (P : Selection → Prop) : CacheOK S D P [] := by
+  intro k g h; simp at h
+
+theorem cache_get_mem (c : Cache) (k : CacheKey) (g : Grouped) (h : c.get? k = some g) : (k, g) ∈ c := by
+  unfold Cache.get? at h
+  cases hf : c.find? (fun p => p.1 == k) with
+  | none => simp [hf] at h
+  | some p =>
+    simp only [hf, Option.some.injEq] at h
+    have hm := List.mem_of_find?_eq_some hf
+    have hk := List.find?_some hf
+    have : p.1 = k := by simpa using hk
+    obtain ⟨p1, p2⟩ := p
+    simp only at this h
+    subst this; subst h
+    exact hm
+
+/-- `collectFields` with the memo: a hit returns what a fresh computation would, a miss extends the
+    memo with a correct entry. -/
+theorem collectFields_inv (memo : Bool) (S : Schema) (D : Document) (P : Selection → Prop) (hP : NodeSet D P)
+    (fuel : Nat) (o : ObjT) (sels : List Selection) (c : Cache) (g' : Grouped) (c' : Cache)
+    (hc : CacheOK S D P c) (ho : S.object? o.name = some o) (hsels : ∀ s ∈ sels, P s)
+    (h : collectFields memo S D fuel o sels c = .ok (g', c')) :
+    CacheOK S D P c' ∧ ∃ fuel0 fs v, expand S D o fuel0 sels [] = .ok (fs, v) ∧ g' = groupInOrder fs := by
+  unfold collectFields at h
+  simp only at h
+  have miss : ∀ (h' : (match collectImpl S D o fuel sels { visited := [], grouped := [] } with
+                       | .error s => Except.error s
+                       | .ok st => Except.ok (st.grouped, if memo = true then (cacheKey o sels, st.grouped) :: c else c))
+                      = Except.ok (g', c')),
+      CacheOK S D P c' ∧ ∃ fuel0 fs v, expand S D o fuel0 sels [] = .ok (fs, v) ∧ g' = groupInOrder fs := by
+    intro h'
+    rw [collectImpl_eq_expand] at h'
+    cases he : expand S D o fuel sels [] with
+    | error e => simp [he, mapOk] at h'
+    | ok r =>
+      obtain ⟨fs, v⟩ := r
+      simp only [he, mapOk, toCState, Except.ok.injEq, Prod.mk.injEq] at h'
+      obtain ⟨h1, h2⟩ := h'
+      have hg : g' = groupInOrder fs := by rw [← h1]; rfl
+      refine ⟨?_, fuel, fs, v, he, hg⟩
+      cases memo with
+      | false => simp only [Bool.false_eq_true, if_false] at h2; rw [← h2]; exact hc
+      | true =>
+        simp only [if_true] at h2
+        rw [← h2]
+        intro k g hm
+        rcases List.mem_cons.mp hm with hm | hm
+        · simp only [Prod.mk.injEq] at hm
+          obtain ⟨rfl, rfl⟩ := hm
+          exact ⟨o, sels, fuel, fs, v, ho, hsels, rfl, he, rfl⟩
+        · exact hc k g hm
+  cases memo with
+  | false => simp only [Bool.false_eq_true, if_false] at h; exact miss h
+  | true =>
+    simp only [if_true] at h
+    cases hget : c.get? (cacheKey o sels) with
+    | none => simp only [hget] at h; exact miss h
+    | some g =>
+      simp only [hget, Except.ok.injEq, Prod.mk.injEq] at h
+      obtain ⟨rfl, rfl⟩ := h
+      refine ⟨hc, ?_⟩
+      obtain ⟨o', sels', fuel0, fs, v, ho', hsels', hk, he, hg⟩ := hc _ _ (cache_get_mem c _ _ hget)
+      simp only [cacheKey, Prod.mk.injEq] at hk
+      have hoo : o = o' := by
+        have : S.object? o.name = S.object? o'.name := by rw [hk.1]
+        rw [ho, ho'] at this
+        exact Option.some.inj this
+      subst hoo
+      have hss : sels = sels' := sels_eq_of_pos P hP.pos_inj sels sels' hsels hsels' hk.2
+      subst hss
+      exact ⟨fuel0, fs, v, he, hg⟩
+
+
+theorem catch_cache (t : TypeRef) (out : Out) : (catchIfNullable t out).cache = out.cache := by
+  cases t with
+  | nonNull t => rfl
+  | named n => simp only [catchIfNullable]; cases out.r <;> rfl
+  | list t => simp only [catchIfNullable]; cases out.r <;> rfl
+
+/-- `execItems_sim` with an invariant `I` of the memo threaded through the loop and a property `F`
+    of the merged field lists. -/
+theorem execItems_sim_inv (I : Cache → Prop) (F : List FieldNode → Prop) (o : ObjT) (objVal : RVal) (path : Path)
+    (mc : List FieldNode → FieldNode → TypeRef → RVal → Path → Cache → Out)
+    (sc : TypeRef → List FieldNode → FieldNode → RVal → Path → Option Spec.SOut)
+    (H : ∀ fields f0 t v p c s, I c → F fields → sc t fields f0 v p = some s →
+      Sim (mc fields f0 t v p c) s ∧ I (mc fields f0 t v p c).cache)
+    (g : Grouped) (acc : List (String × Json)) (errs : List Err) (c : Cache)
+    (rs : List (Option (String × Spec.SOut)))
+    (hI : I c) (hF : ∀ p ∈ g, F p.2)
+    (hrs : g.mapM (Spec.executeEntry o objVal path sc) = some rs) :
+    SimObj acc errs
+      (execItemsWith o path
+        (fun fields f0 fd p c => execFieldWith (fun t v p c => mc fields f0 t v p c) objVal fields f0 fd p c)
+        g acc errs c)
+      (Spec.combineFields rs) ∧
+    I (execItemsWith o path
+        (fun fields f0 fd p c => execFieldWith (fun t v p c => mc fields f0 t v p c) objVal fields f0 fd p c)
+        g acc errs c).cache := by
+  induction g generalizing acc errs c rs with
+  | nil =>
+    simp only [List.mapM_nil, pure, Option.some.injEq] at hrs
+    subst hrs
+    refine ⟨?_, hI⟩
+    intro _
+    simp only [execItemsWith, combineFields_nil]
+    exact ⟨[], [], rfl, by simp, by simp, SubMulti.nil _, SubMulti.nil _⟩
+  | cons p rest ih =>
+    obtain ⟨key, fields⟩ := p
+    obtain ⟨entry, rs', hentry, hrest, rfl⟩ := option_mapM_cons _ _ _ _ hrs
+    have hFrest : ∀ p ∈ rest, F p.2 := fun p hp => hF p (List.mem_cons_of_mem _ hp)
+    have hFhere : F fields := hF (key, fields) (List.mem_cons_self ..)
+    cases fields with
+    | nil => simp [Spec.executeEntry] at hentry
+    | cons f0 tl =>
+      simp only [execItemsWith, List.head?_cons]
+      by_cases htn : f0.name = "__typename"
+      · -- __typename
+        simp only [Spec.executeEntry, htn, if_true, Option.some.injEq] at hentry
+        subst hentry
+        simp only [htn, beq_self_eq_true, if_true]
+        obtain ⟨ih', ihI⟩ := ih (acc ++ [(key, .str o.name)]) errs c rs' hI hFrest hrest
+        refine ⟨?_, ihI⟩
+        intro hu
+        rw [combineFields_some_ok key _ (.str o.name) rs' rfl] at hu ⊢
+        simp only [Spec.completed, Bool.false_or] at hu
+        have ih'' := ih' hu
+        simp only [Spec.completed, List.nil_append]
+        cases hr : (execItemsWith o path _ rest (acc ++ [(key, .str o.name)]) errs c).r with
+        | ok j =>
+          simp only [hr] at ih''
+          obtain ⟨kvs, E, h1, h2, h3, h4, h5⟩ := ih''
+          refine ⟨(key, .str o.name) :: kvs, E, ?_, ?_, h3, ?_, h5⟩
+          · simp [h1]
+          · simp [h2]
+          · simp only [h1]; exact h4
+        | err e =>
+          simp only [hr] at ih''
+          obtain ⟨E, h1, h2, h3, h4⟩ := ih''
+          refine ⟨E, ?_, ?_, h3, h4⟩
+          · simp [h1]
+          · simp only [h1]; exact h2
+        | stuck st => trivial
+      · have htn' : (f0.name == "__typename") = false := by simpa using htn
+        simp only [htn', Bool.false_eq_true, if_false]
+        simp only [Spec.executeEntry, htn, if_false] at hentry
+        rw [getField_eq]
+        cases hfd : o.fields.find? (fun (fd : FieldDef) => decide (fd.name = f0.name)) with
+        | none =>
+          simp only [hfd, Option.some.injEq] at hentry
+          subst hentry
+          obtain ⟨_, ihI⟩ := ih (acc ++ [("", .null)]) errs c rs' hI hFrest hrest
+          refine ⟨?_, ihI⟩
+          intro hu
+          rw [combineFields_none] at hu
+          simp at hu
+        | some fd =>
+          simp only [hfd] at hentry
+          have hex : ∃ r0, entry = some (key, Spec.atPosition fd.type r0) ∧
+              Sim (execFieldWith (fun t v p c => mc (f0 :: tl) f0 t v p c) objVal (f0 :: tl) f0 fd (path ++ [.key key]) c) r0 ∧
+              I (execFieldWith (fun t v p c => mc (f0 :: tl) f0 t v p c) objVal (f0 :: tl) f0 fd (path ++ [.key key]) c).cache := by
+            unfold execFieldWith
+            cases hae : f0.argErr with
+            | some ae =>
+              simp only [hae, Option.map_some, Option.some.injEq] at hentry
+              exact ⟨_, hentry.symm, sim_fieldError _ _, hI⟩
+            | none =>
+              simp only [hae] at hentry
+              cases hres : resolve objVal f0.wkey with
+              | err m =>
+                simp only [hres, Option.map_some, Option.some.injEq] at hentry
+                exact ⟨_, hentry.symm, sim_fieldError _ _, hI⟩
+              | val v =>
+                simp only [hres] at hentry
+                cases hsc : sc fd.type (f0 :: tl) f0 v (path ++ [PathSeg.key key]) with
+                | none => simp [hsc] at hentry
+                | some r0 =>
+                  simp only [hsc, Option.map_some, Option.some.injEq] at hentry
+                  have := H _ _ _ _ _ _ _ hI hFhere hsc
+                  exact ⟨r0, hentry.symm, this.1, this.2⟩
+          obtain ⟨r0, rfl, hsim0, hI0⟩ := hex
+          have hsim := sim_catch fd.type _ _ hsim0
+          have hIc : I (catchIfNullable fd.type (execFieldWith (fun t v p c => mc (f0 :: tl) f0 t v p c) objVal (f0 :: tl) f0 fd (path ++ [.key key]) c)).cache := by
+            rw [catch_cache]; exact hI0
+          generalize hout0 : catchIfNullable fd.type (execFieldWith (fun t v p c => mc (f0 :: tl) f0 t v p c) objVal (f0 :: tl) f0 fd (path ++ [.key key]) c) = out0 at hsim hIc
+          simp only [hout0]
+          have hdata : (Spec.atPosition fd.type r0).data = none ∨ ∃ j, (Spec.atPosition fd.type r0).data = some j := by
+            cases (Spec.atPosition fd.type r0).data with
+            | none => left; rfl
+            | some j => right; exact ⟨j, rfl⟩
+          cases hr : out0.r with
+          | stuck st => simp only [hr]; exact ⟨fun _ => trivial, hIc⟩
+          | err e0 =>
+            simp only [hr]
+            refine ⟨?_, hIc⟩
+            intro hu
+            rcases hdata with hd | ⟨j, hd⟩
+            · rw [combineFields_some_fail key _ rs' hd] at hu ⊢
+              simp only [Bool.or_eq_false_iff] at hu
+              have := hsim hu.1
+              simp only [hr] at this
+              obtain ⟨_, h2, h3⟩ := this
+              exact ⟨out0.errs, rfl, h2, rfl, SubMulti.append_right _ h3⟩
+            · rw [combineFields_some_ok key _ j rs' hd] at hu
+              simp only [Bool.or_eq_false_iff] at hu
+              have := hsim hu.1
+              simp only [hr] at this
+              rw [hd] at this
+              exact absurd this.1 (by simp)
+          | ok j0 =>
+            simp only [hr]
+            obtain ⟨ih', ihI⟩ := ih (acc ++ [(key, j0)]) (errs ++ out0.errs) out0.cache rs' hIc hFrest hrest
+            refine ⟨?_, ihI⟩
+            intro hu
+            rcases hdata with hd | ⟨j, hd⟩
+            · rw [combineFields_some_fail key _ rs' hd] at hu
+              simp only [Bool.or_eq_false_iff] at hu
+              have := hsim hu.1
+              simp only [hr] at this
+              rw [hd] at this
+              exact absurd this.1 (by simp)
+            · rw [combineFields_some_ok key _ j rs' hd] at hu ⊢
+              simp only [Bool.or_eq_false_iff] at hu
+              have h0 := hsim hu.1
+              simp only [hr] at h0
+              obtain ⟨h01, h02, h03⟩ := h0
+              have hj : j = j0 := by rw [hd] at h01; exact Option.some.inj h01
+              subst hj
+              have ih'' := ih' hu.2
+              cases hr2 : (execItemsWith o path _ rest (acc ++ [(key, j)]) (errs ++ out0.errs) out0.cache).r with
+              | stuck st => trivial
+              | ok j2 =>
+                simp only [hr2] at ih''
+                obtain ⟨kvs, E, h1, h2, h3, h4, h5⟩ := ih''
+                refine ⟨(key, j) :: kvs, out0.errs ++ E, ?_, ?_, ?_, ?_, ?_⟩
+                · simp [h1]
+                · simp [h2]
+                · simp [h3]
+                · simp only [h1]; exact SubMulti.append h02 h4
+                · exact SubMulti.append h03 h5
+              | err e2 =>
+                simp only [hr2] at ih''
+                obtain ⟨E, h1, h2, h3, h4⟩ := ih''
+                refine ⟨out0.errs ++ E, ?_, ?_, ?_, ?_⟩
+                · simp [h1]
+                · simp only [h1]; exact h2
+                · simp [h3]
+                · rw [List.append_assoc]; exact SubMulti.append h03 h4
+
+
+theorem runItems_sim_inv (I : Cache → Prop) (inner : TypeRef) (path : Path)
+    (mc : RVal → Path → Cache → Out) (sc : RVal → Path → Option Spec.SOut)
+    (H : ∀ v p c s, I c → sc v p = some s → Sim (mc v p c) s ∧ I (mc v p c).cache)
+    (items : List RVal) (i : Nat) (c : Cache) (rs : List Spec.SOut) (hI : I c)
+    (hrs : (items.zipIdx i).mapM (Spec.completeItem inner path sc) = some rs) :
+    Sim { r := joinResults (runItems inner path mc items i c).1, errs := (runItems inner path mc items i c).2.1,
+          cache := (runItems inner path mc items i c).2.2 } (Spec.combineItems rs) ∧
+    I (runItems inner path mc items i c).2.2 := by
+  induction items generalizing i c rs with
+  | nil =>
+    simp only [List.zipIdx_nil, List.mapM_nil, pure, Option.some.injEq] at hrs
+    subst hrs
+    refine ⟨?_, hI⟩
+    intro _
+    simp only [runItems, joinResults_nil, combineItems_nil]
+    exact ⟨by first | rfl | trivial, SubMulti.nil _, SubMulti.nil _⟩
+  | cons v rest ih =>
+    simp only [List.zipIdx_cons] at hrs
+    obtain ⟨s0, rs', hs0, hrest, rfl⟩ := option_mapM_cons _ _ _ _ hrs
+    simp only [Spec.completeItem] at hs0
+    cases hsc : sc v (path ++ [PathSeg.idx i]) with
+    | none => simp [hsc] at hs0
+    | some r0 =>
+      simp only [hsc, Option.map_some, Option.some.injEq] at hs0
+      subst hs0
+      have hH := H v (path ++ [.idx i]) c r0 hI hsc
+      have hsim := sim_catch inner _ _ hH.1
+      have hIc : I (catchIfNullable inner (mc v (path ++ [.idx i]) c)).cache := by rw [catch_cache]; exact hH.2
+      simp only [runItems]
+      generalize hout0 : catchIfNullable inner (mc v (path ++ [.idx i]) c) = out0 at hsim hIc
+      obtain ⟨ih', ihI⟩ := ih (i + 1) out0.cache rs' hIc hrest
+      generalize hRs : runItems inner path mc rest (i + 1) out0.cache = run at ih' ihI
+      obtain ⟨Rs, Es, c'⟩ := run
+      simp only at ih' ihI ⊢
+      refine ⟨?_, ihI⟩
+      intro hu
+      have hdata : (Spec.atPosition inner r0).data = none ∨ ∃ j, (Spec.atPosition inner r0).data = some j := by
+        cases (Spec.atPosition inner r0).data with
+        | none => left; rfl
+        | some j => right; exact ⟨j, rfl⟩
+      cases hr : out0.r with
+      | stuck st => simp only [joinResults_stuck]
+      | ok j0 =>
+        rcases hdata with hd | ⟨j, hd⟩
+        · rw [combineItems_fail _ rs' hd] at hu
+          simp only [Bool.or_eq_false_iff] at hu
+          have := hsim hu.1
+          simp only [hr] at this
+          rw [hd] at this
+          exact absurd this.1 (by simp)
+        · rw [combineItems_ok _ j rs' hd] at hu ⊢
+          simp only [Bool.or_eq_false_iff] at hu
+          have h0 := hsim hu.1
+          simp only [hr] at h0
+          obtain ⟨h01, h02, h03⟩ := h0
+          have hj : j = j0 := by rw [hd] at h01; exact Option.some.inj h01
+          subst hj
+          have ih'' := ih' hu.2
+          rw [joinResults_ok]
+          cases hjr : joinResults Rs with
+          | stuck st => simp only
+          | err e =>
+            simp only [hjr] at ih'' ⊢
+            obtain ⟨h1, h2, h3⟩ := ih''
+            refine ⟨by simp [h1], by simp only [h1]; exact h2, ?_⟩
+            rw [List.append_assoc]
+            exact SubMulti.append h03 h3
+          | ok jr =>
+            obtain ⟨js, rfl⟩ := joinResults_ok_shape Rs jr hjr
+            simp only [hjr] at ih'' ⊢
+            obtain ⟨h1, h2, h3⟩ := ih''
+            refine ⟨by simp [h1], by simp only [h1]; exact SubMulti.append h02 h2, SubMulti.append h03 h3⟩
+      | err e0 =>
+        rcases hdata with hd | ⟨j, hd⟩
+        · rw [combineItems_fail _ rs' hd] at hu ⊢
+          simp only [Bool.or_eq_false_iff] at hu
+          have h0 := hsim hu.1
+          simp only [hr] at h0
+          obtain ⟨_, h02, h03⟩ := h0
+          have ih'' := ih' hu.2
+          rw [joinResults_err]
+          cases hjr : joinResults Rs with
+          | stuck st => simp only
+          | err e =>
+            simp only [hjr] at ih'' ⊢
+            obtain ⟨_, _, h3⟩ := ih''
+            refine ⟨by first | rfl | trivial, h02, ?_⟩
+            have h3' := SubMulti.of_append_left h3
+            intro x
+            have a1 := h03 x
+            have a2 := h3' x
+            simp only [List.count_append] at a1 a2 ⊢
+            omega
+          | ok jr =>
+            simp only [hjr] at ih'' ⊢
+            obtain ⟨_, _, h3⟩ := ih''
+            refine ⟨by first | rfl | trivial, h02, ?_⟩
+            intro x
+            have a1 := h03 x
+            have a2 := h3 x
+            simp only [List.count_append] at a1 a2 ⊢
+            omega
+        · rw [combineItems_ok _ j rs' hd] at hu
+          simp only [Bool.or_eq_false_iff] at hu
+          have := hsim hu.1
+          simp only [hr] at this
+          rw [hd] at this
+          exact absurd this.1 (by simp)
+
+/-! ### the main induction, for the model as written (with its memo) -/
+
+def SimCompleteI (memo : Bool) (S : Schema) (D : Document) (P : Selection → Prop) (fuel : Nat) : Prop :=
+  ∀ fuel' t fields f0 v path c s, CacheOK S D P c → FieldsIn P fields →
+    Spec.completeValue S D fuel' t fields f0 v path = some s →
+    Sim (completeValue memo S D fuel t fields f0 v path c) s ∧
+    CacheOK S D P (completeValue memo S D fuel t fields f0 v path c).cache
+
+def SimSelectionsI (memo : Bool) (S : Schema) (D : Document) (P : Selection → Prop) (fuel : Nat) : Prop :=
+  ∀ fuel' o sels v path c s, CacheOK S D P c → S.object? o.name = some o → (∀ x ∈ sels, P x) →
+    Spec.executeSelectionSet S D fuel' o sels v path = some s →
+    Sim (execSelections memo S D fuel o sels v path c) s ∧
+    CacheOK S D P (execSelections memo S D fuel o sels v path c).cache
+
+theorem simSelectionsI_succ (memo : Bool) (S : Schema) (D : Document) (P : Selection → Prop) (hP : NodeSet D P)
+    (fuel : Nat) (ih : SimCompleteI memo S D P fuel) : SimSelectionsI memo S D P (fuel + 1) := by
+  intro fuel' o sels v path c s hc ho hsels hs
+  cases fuel' with
+  | zero => simp [Spec.executeSelectionSet] at hs
+  | succ fuel' =>
+    simp only [Spec.executeSelectionSet] at hs
+    cases hcs : Spec.collectFields S D o fuel' sels [] with
+    | none => simp [hcs] at hs
+    | some gv =>
+      obtain ⟨g, vis⟩ := gv
+      simp only [hcs] at hs
+      cases hrs : g.mapM (Spec.executeEntry o v path (Spec.completeValue S D fuel')) with
+      | none => simp [hrs] at hs
+      | some rs =>
+        simp only [hrs, Option.map_some, Option.some.injEq] at hs
+        subst hs
+        simp only [execSelections]
+        cases hcm : collectFields memo S D fuel o sels c with
+        | error st => exact ⟨sim_stuck _ _ _ _, hc⟩
+        | ok gc =>
+          obtain ⟨g', c'⟩ := gc
+          simp only
+          obtain ⟨hc', fuel0, fs, v0, he, hg'⟩ := collectFields_inv memo S D P hP fuel o sels c g' c' hc ho hsels hcm
+          obtain ⟨hg, _⟩ := spec_collect_eq_expand S D o fuel0 fuel' sels [] fs v0 g vis he hcs
+          have hgg : g' = g := by rw [hg', hg]
+          subst hgg
+          have hF : ∀ p ∈ g', FieldsIn P p.2 := by
+            intro p hp
+            rw [hg'] at hp
+            exact groupInOrder_fieldsIn P fs (expand_fieldsIn S D o P hP fuel0 sels [] (fs, v0) hsels he) p hp
+          have := execItems_sim_inv (CacheOK S D P) (FieldsIn P) o v path
+            (fun fields f0 t v p c => completeValue memo S D fuel t fields f0 v p c)
+            (Spec.completeValue S D fuel') (fun fields f0 t v p c s hI hF h => ih fuel' t fields f0 v p c s hI hF h)
+            g' [] [] c' rs hc' hF hrs
+          exact ⟨sim_of_simObj _ _ this.1, this.2⟩
+
+
+theorem object?_of_lookup (S : Schema) (n : String) (fs : List FieldDef) (is : List String)
+    (h : S.lookup n = some (.object fs is)) :
+    S.object? ({ name := n, fields := fs, ifaces := is } : ObjT).name = some { name := n, fields := fs, ifaces := is } := by
+  simp [Schema.object?, h]
+
+theorem object?_name (S : Schema) (tn : String) (o : ObjT) (h : S.object? tn = some o) : S.object? o.name = some o := by
+  unfold Schema.object? at h
+  cases hl : S.lookup tn with
+  | none => simp [hl] at h
+  | some td =>
+    cases td with
+    | object fs is =>
+      simp only [hl, Option.some.injEq] at h
+      subst h
+      simp [Schema.object?, hl]
+    | scalar k => simp [hl] at h
+    | interface fs => simp [hl] at h
+    | union ms => simp [hl] at h
+    | enum vs => simp [hl] at h
+
+theorem simCompleteI_succ (memo : Bool) (S : Schema) (D : Document) (P : Selection → Prop)
+    (fuel : Nat) (ihc : SimCompleteI memo S D P fuel) (ihs : SimSelectionsI memo S D P fuel) :
+    SimCompleteI memo S D P (fuel + 1) := by
+  intro fuel' t fields f0 v path c s hc hF hs
+  cases fuel' with
+  | zero => simp [Spec.completeValue] at hs
+  | succ fuel' =>
+    cases t with
+    | nonNull inner =>
+      simp only [Spec.completeValue] at hs
+      simp only [completeValue]
+      cases hin : Spec.completeValue S D fuel' inner fields f0 v path with
+      | none => simp [hin] at hs
+      | some r =>
+        simp only [hin] at hs
+        obtain ⟨hsim, hcache⟩ := ihc fuel' inner fields f0 v path c r hc hF hin
+        have := sim_nonNull _ r f0 path hsim
+        have hcache' : CacheOK S D P
+            (match (completeValue memo S D fuel inner fields f0 v path c).r with
+             | .ok .null => { completeValue memo S D fuel inner fields f0 v path c with r := .err (errAt f0 path .nullNonNull) }
+             | _ => completeValue memo S D fuel inner fields f0 v path c).cache := by
+          cases hr : (completeValue memo S D fuel inner fields f0 v path c).r with
+          | ok j => cases j <;> exact hcache
+          | err e => exact hcache
+          | stuck st => exact hcache
+        refine ⟨?_, hcache'⟩
+        cases hd : r.data with
+        | none =>
+          simp only [hd, Option.some.injEq] at hs this
+          subst hs
+          exact this
+        | some j =>
+          cases j <;> simp only [hd, Option.some.injEq] at hs this <;> subst hs <;> exact this
+    | list inner =>
+      simp only [Spec.completeValue, isNullish_eq] at hs
+      simp only [completeValue]
+      by_cases hnil : v.isNil = true
+      · simp only [hnil, if_true, Option.some.injEq] at hs ⊢
+        subst hs
+        exact ⟨sim_completed _ _, hc⟩
+      · simp only [hnil, Bool.false_eq_true, if_false] at hs ⊢
+        cases v with
+        | list items =>
+          simp only at hs ⊢
+          cases hrs : (items.zipIdx).mapM (Spec.completeItem inner path (Spec.completeValue S D fuel' inner fields f0)) with
+          | none => simp [hrs] at hs
+          | some rs =>
+            simp only [hrs, Option.map_some, Option.some.injEq] at hs
+            subst hs
+            rw [completeItemsWith_eq]
+            simp only [List.nil_append]
+            exact runItems_sim_inv (CacheOK S D P) inner path (fun v p c => completeValue memo S D fuel inner fields f0 v p c)
+              (Spec.completeValue S D fuel' inner fields f0) (fun v p c s hI h => ihc fuel' inner fields f0 v p c s hI hF h)
+              items 0 c rs hc hrs
+        | leaf g => simp only [Option.some.injEq] at hs ⊢; subst hs; exact ⟨sim_fieldError _ _, hc⟩
+        | null => simp [RVal.isNil] at hnil
+        | tnil => simp [RVal.isNil] at hnil
+        | obj ty es => simp only [Option.some.injEq] at hs ⊢; subst hs; exact ⟨sim_fieldError _ _, hc⟩
+    | named n =>
+      simp only [Spec.completeValue, isNullish_eq] at hs
+      simp only [completeValue]
+      by_cases hnil : v.isNil = true
+      · simp only [hnil, if_true, Option.some.injEq] at hs ⊢
+        subst hs
+        exact ⟨sim_completed _ _, hc⟩
+      · simp only [hnil, Bool.false_eq_true, if_false] at hs ⊢
+        have hmerge := mergeSelectionSets_in P fields hF
+        cases hl : S.lookup n with
+        | none => simp [hl] at hs
+        | some td =>
+          cases td with
+          | scalar k =>
+            simp only [hl] at hs ⊢
+            cases v with
+            | leaf g =>
+              simp only [coerceScalar_eq] at hs ⊢
+              cases hcr : Spec.resultCoerce k g with
+              | some j => simp only [hcr, Option.some.injEq] at hs ⊢; subst hs; exact ⟨sim_completed _ _, hc⟩
+              | none => simp only [hcr, Option.some.injEq] at hs ⊢; subst hs; exact ⟨sim_fieldError _ _, hc⟩
+            | null => simp [RVal.isNil] at hnil
+            | tnil => simp [RVal.isNil] at hnil
+            | list items => simp only [Option.some.injEq] at hs ⊢; subst hs; exact ⟨sim_fieldError _ _, hc⟩
+            | obj ty es => simp only [Option.some.injEq] at hs ⊢; subst hs; exact ⟨sim_fieldError _ _, hc⟩
+          | enum values =>
+            simp only [hl] at hs ⊢
+            cases v with
+            | leaf g =>
+              simp only [coerceEnum_eq] at hs ⊢
+              cases hcr : Spec.enumCoerce values g with
+              | some j => simp only [hcr, Option.some.injEq] at hs ⊢; subst hs; exact ⟨sim_completed _ _, hc⟩
+              | none => simp only [hcr, Option.some.injEq] at hs ⊢; subst hs; exact ⟨sim_fieldError _ _, hc⟩
+            | null => simp [RVal.isNil] at hnil
+            | tnil => simp [RVal.isNil] at hnil
+            | list items => simp only [Option.some.injEq] at hs ⊢; subst hs; exact ⟨sim_fieldError _ _, hc⟩
+            | obj ty es => simp only [Option.some.injEq] at hs ⊢; subst hs; exact ⟨sim_fieldError _ _, hc⟩
+          | object fs is =>
+            simp only [hl, mergeSelectionSets_eq] at hs ⊢
+            exact ihs fuel' _ _ _ _ c s hc (object?_of_lookup S n fs is hl) hmerge hs
+          | interface fs =>
+            simp only [hl, mergeSelectionSets_eq, implementations_eq S n fs hl] at hs ⊢
+            cases hf : (S.implementations n).find? (fun t => isTypeOf t v) with
+            | none => simp only [hf, Option.some.injEq] at hs ⊢; subst hs; exact ⟨sim_fieldError _ _, hc⟩
+            | some tn =>
+              simp only [hf] at hs ⊢
+              cases ho : S.object? tn with
+              | none => simp [ho] at hs
+              | some o =>
+                simp only [ho] at hs ⊢
+                exact ihs fuel' _ _ _ _ c s hc (object?_name S tn o ho) hmerge hs
+          | union ms =>
+            simp only [hl, mergeSelectionSets_eq, possibleTypes_union S n ms hl] at hs ⊢
+            cases hf : ms.find? (fun t => isTypeOf t v) with
+            | none => simp only [hf, Option.some.injEq] at hs ⊢; subst hs; exact ⟨sim_fieldError _ _, hc⟩
+            | some tn =>
+              simp only [hf] at hs ⊢
+              cases ho : S.object? tn with
+              | none => simp [ho] at hs
+              | some o =>
+                simp only [ho] at hs ⊢
+                exact ihs fuel' _ _ _ _ c s hc (object?_name S tn o ho) hmerge hs
+
+/-- **Refinement of the executor model as written (memo included) to the reference**, at every fuel of
+    either side, for documents whose selection nodes have pairwise distinct positions. -/
+theorem sim_main_inv (memo : Bool) (S : Schema) (D : Document) (P : Selection → Prop) (hP : NodeSet D P) (fuel : Nat) :
+    SimCompleteI memo S D P fuel ∧ SimSelectionsI memo S D P fuel := by
+  induction fuel with
+  | zero =>
+    constructor
+    · intro fuel' t fields f0 v path c s hc _ _
+      simp only [completeValue]
+      exact ⟨sim_stuck _ _ _ _, hc⟩
+    · intro fuel' o sels v path c s hc _ _ _
+      simp only [execSelections]
+      exact ⟨sim_stuck _ _ _ _, hc⟩
+  | succ fuel ih =>
+    exact ⟨simCompleteI_succ memo S D P fuel ih.1 ih.2, simSelectionsI_succ memo S D P hP fuel ih.1⟩
+
+
 end ApiFu.C01
